@@ -330,3 +330,59 @@ def check_clone_faithful_table(F, R, prefix, inst):
         n += 1
         R.check(bad is None, f"{inst}/{short}", b, f"{short}::clone keeps variant and fields ({len(rows)} rows)", f"`{short}::clone` is not faithful: {bad}")
     return n
+
+
+def check_builders_keep_cli(F, R, inst="builder-keeps-cli"):
+    """Every `Cucumber` builder method (self -> Cucumber) hands the CLI options given by `with_cli()` on to the value it returns:
+    the `cli` field of the result is `self.cli`, or is set explicitly from a parameter (`with_cli`, `with_default_cli`); it may be
+    reset to None only by the methods that replace the parser / runner / writer wholesale by a parameter (the options' type
+    changes with them).  Decided on the methods' path tables.  Returns the number of methods examined."""
+    from . import deep as D
+    adt = F.adts.get(("cucumber", "cucumber::Cucumber"))
+    if not adt:
+        raise Unverifiable("ADT cucumber::Cucumber")
+    names = [f["name"] for f in adt["variants"][0]["fields"]]
+    if "cli" not in names:
+        raise Unverifiable("Cucumber has no `cli` field")
+    ci = names.index("cli")
+    comp = [names.index(n) for n in ("parser", "runner", "writer") if n in names]
+    bs = [b for b in F.crate_bodies() if (b.impl or {}).get("self_adt") == "cucumber::Cucumber" and not (b.impl or {}).get("trait") and b.kind == "AssocFn"
+          and b.arg_count >= 1 and b.locals[1].startswith("cucumber::Cucumber<") and b.locals[0].startswith("cucumber::Cucumber<")]
+    SELF = ("arg", 1)
+
+    def strip(t):
+        while isinstance(t, tuple) and t and t[0] in ("ref", "deref", "refto", "conv"):
+            t = t[1]
+        return t
+    n = 0
+    for b in bs:
+        nm = b.name.rsplit("::", 1)[-1]
+        rows = D.Deep(F, b, max_paths=60, inline_only=lambda cb: (cb.impl or {}).get("self_adt") == "cucumber::Cucumber").run()
+        bad = None
+        if not rows or any(p.cut for p in rows):
+            bad = "empty path table or a loop"
+        for p in rows if bad is None else []:
+            r = strip(p.ret)
+            if r == SELF:
+                continue
+            if r[0] == "with" and strip(r[1]) == SELF:
+                ov = dict(r[2])
+                if ci in ov and not D.is_variant(strip(ov[ci]), "std::option::Option", "Some"):
+                    bad = "the cli field is overwritten with something else than Some(..)"
+                continue
+            if not D.is_variant(r, "cucumber::Cucumber"):
+                bad = f"returns {D.fmt(b, p.ret)[:60]}"
+                break
+            cli = strip(r[3][ci])
+            if cli == ("field", SELF, ci):
+                continue
+            if D.is_variant(cli, "std::option::Option", "Some") and D.mentions(cli, lambda y: y[0] == "arg" and y[1] >= 2):
+                continue
+            replaced = [i for i in comp if not D.mentions(r[3][i], lambda y: y == SELF)]
+            if D.is_variant(cli, "std::option::Option", "None") and replaced:
+                continue
+            bad = f"returns a Cucumber whose cli is {D.fmt(b, r[3][ci])[:40]} although parser, runner and writer all derive from self: options given by with_cli() before `{nm}()` are dropped"
+            break
+        n += 1
+        R.check(bad is None, f"{inst}/{nm}", b, "cli carried over", f"Cucumber::{nm}: {bad}")
+    return n
